@@ -1366,6 +1366,9 @@ class Interp:
         if fn is None:
             raise Unsupported(f"binary op {type(op).__name__}")
         try:
+            if inplace and isinstance(a, T) and not isinstance(op, (ast.MatMult,)):
+                # torch tensors implement __iadd__/__imul__/... IN PLACE: mutate the object (all aliases see it)
+                return a._inplace_full(fn(a, b))
             return fn(a, b)
         except ZeroDivisionError:
             raise SymRaise("ZeroDivisionError")
